@@ -137,7 +137,7 @@ func canonicalOK(t *vlib.T, tm M, ctx string) bool {
 			return false
 		}
 		a, b, c, d := tm.at(i, i), tm.at(i, i+1), tm.at(i+1, i), tm.at(i+1, i+1)
-		if a != d || !(b*c < 0) {
+		if a != d || !oppositeSigns(b, c) {
 			t.Failf("2x2 block at %d not standardised: [[%v %v][%v %v]] [%s]", i, a, b, c, d, ctx)
 			return false
 		}
@@ -608,7 +608,7 @@ func checkLanv2Scaled(t *vlib.T, a, b, c, d, sc float64) string {
 		}
 		return "real"
 	}
-	if aa != dd || !(bb*cc < 0) {
+	if aa != dd || !oppositeSigns(bb, cc) {
 		t.Failf("cc != 0 but not standardised (aa == dd, bb*cc < 0) [%s]", ctx)
 	}
 	im := math.Sqrt(math.Abs(bb)) * math.Sqrt(math.Abs(cc))
